@@ -371,6 +371,8 @@ def to_str_term(v):
         raise EngineError(f"not str: {v}")
     if isinstance(v, str):
         return z3.StringVal(v)
+    if isinstance(v, bytes):
+        return z3.StringVal(v.decode("latin-1"))      # bytes as strings over code points 0..255
     raise EngineError(f"not str: {v!r}")
 
 
